@@ -13,6 +13,12 @@ import (
 	cs "verif/h/chainsim"
 )
 
+// poorBalance pays a few dozen fees but no stake top-up of bigTopUp.
+const (
+	poorBalance = 3_000_000
+	bigTopUp    = 50_000_000
+)
+
 type fataler interface {
 	Fatalf(string, ...any)
 	Logf(string, ...any)
@@ -86,6 +92,13 @@ func (w *world) opts(s cs.Signer) cs.TxOpts {
 //	orders by ed25519 #11, eth #11, multisig #1.
 func newWorld(t fataler, whale bool) *world {
 	g, cast := cs.RichGenesis(1, cs.GenesisOpts{WithWhale: whale})
+	// asymmetric balances of two non-custodial validators: v3 has a POOR operator (bls3) and a rich output (ed25519 #3), v5 a rich
+	// operator (bls5) and a POOR output (secp256k1 #5). A stake top-up may only ever be paid by the key that signed it.
+	for _, a := range g.Accounts {
+		if bytes.Equal(a.Address, cs.Signer{Kind: cs.KindBLS, Key: 3}.Address()) || bytes.Equal(a.Address, cs.Signer{Kind: cs.KindSecp, Key: 5}.Address()) {
+			a.Amount = poorBalance
+		}
+	}
 	c, err := cs.New(cs.Opts{Genesis: g})
 	if err != nil {
 		t.Fatalf("new chain: %v", err)
